@@ -115,7 +115,10 @@ def analyse(c, r):
 
 
 PUBLIC = [P.B("windowsizemsg", w=80, h=24), P.B("windowsizemsg", w=0, h=0), P.B("windowsizemsg", w=120, h=40), P.B("focus"), P.B("blur"),
-          P.B("resume"), P.B("nil")]
+          P.B("resume"), P.B("nil"),
+          # user messages of unusual shapes: typed nils (a nil slice / map / pointer / func is a message like any other) and a
+          # message whose type implements error
+          P.B("tn-slice"), P.B("tn-map"), P.B("tn-ptr"), P.B("tn-func"), P.B("errmsg", w=7), P.B("errmsg", w=8)]
 
 
 def public_family(res, tier, rnd):
@@ -127,6 +130,10 @@ def public_family(res, tier, rnd):
     def key(m):
         if "u" in m:
             return "u:%d" % m["u"]
+        if m["b"].startswith("tn-"):
+            return "tn:" + m["b"][3:]
+        if m["b"] == "errmsg":
+            return "err:%d" % m.get("w", 0)
         return {"windowsizemsg": "ws:%dx%d" % (m.get("w", 0), m.get("h", 0)), "focus": "b:focus", "blur": "b:blur", "resume": "b:resume"}.get(m["b"], "b:" + m["b"])
     scs, sent = [], []
     for i in range(12 if tier == "quick" else 200):
@@ -153,7 +160,7 @@ def public_family(res, tier, rnd):
         got = [e["key"] for e in r["events"] if e["ev"] == "UpdateBegin"]
         if got != want:
             bad.append((i, "sent %s; Update received %s" % (want, got)))
-    res.oblige("Spec on real runs: messages of the public built-in types (repeated and zero window sizes, focus, blur, resume) sent by the application reach Update exactly as sent (%d runs)" % len(scs),
+    res.oblige("Spec on real runs: messages of the public built-in types (repeated and zero window sizes, focus, blur, resume) and of unusual shapes (typed nils, a message that is an error) sent by the application reach Update exactly as sent (%d runs)" % len(scs),
                not bad, [b[1] for b in bad[:2]])
     for i, what in bad[:1]:
         res.violation("C01:public-lost", what, {"scenario": scs[i]})
@@ -161,8 +168,50 @@ def public_family(res, tier, rnd):
     return not bad
 
 
+def outside_calls_family(res, tier, rnd):
+    """the application calls the Program's own methods (ReleaseTerminal / RestoreTerminal, Println, Send) from another
+    goroutine while Update (or View, or the filter) is in progress: no callback may begin before that one has returned"""
+    scs, metas = [], []
+    for i in range(9 if tier == "quick" else 90):
+        where = ["update", "view", "filter"][i % 3]
+        alt = bool((i // 3) % 2)
+        o = {"fps": 120, "alt": alt}
+        upd, view = {}, {}
+        label = None
+        if where == "update":
+            upd["u:1"] = {"pause": True}
+            label = "update:u:1"
+        elif where == "view":
+            view["pause_after"] = "u:1"
+            label = "view:after:u:1"
+        else:
+            o["filter"] = {"pause": ["u:1"]}
+            label = "filter:u:1"
+        script = [P.W("started"), P.W("idle"), P.DO("release-terminal"), P.DO("go-send", msg=P.U(1)), P.W("pause:" + label),
+                  P.DO("restore-terminal"), P.DO("api", kind="println", n=1), P.DO("sleep", us=20000),
+                  P.DO("release", label=label, all=True), P.DO("sleep", us=20000), P.W("idle"), P.DO("send", msg=P.U(2)), P.W("idle"),
+                  P.DO("quit"), P.W("returned")]
+        scs.append(P.scenario(i, script, opts=o, update=upd, view=view, parallel_ok=True, watchdog_ms=4000))
+        metas.append({"where": where, "alt": alt})
+    results, _ = P.run_scenarios("C01_outside", scs, timeout=900)
+    bad = []
+    for m, r in zip(metas, results):
+        if P.machinery_problem(r) or not r["run_returned"]:
+            bad.append((m, "scenario did not complete: %s" % P.summarize(r)))
+            continue
+        probs, _ = analyse({"senders": [], "mode": "complete"}, r)
+        if probs:
+            bad.append((m, "RestoreTerminal / Println called by the application while %s was in progress (%s): %s" % (m["where"], "alt screen" if m["alt"] else "inline", probs[0][1])))
+    res.oblige("Spec on real runs: Program methods called from another goroutine while a callback is in progress start no second callback (%d runs)" % len(scs),
+               not bad, [b[1] for b in bad[:2]])
+    for m, what in bad[:1]:
+        res.violation("C01:overlap:outside-call", what, {"scenario_meta": m})
+    res.coverage["outside_calls_family"] = len(scs)
+
+
 def run(res, tier, seed):
     rnd = random.Random(seed * 7919 + 1)
+    outside_calls_family(res, tier, random.Random(seed * 7919 + 12))
     public_family(res, tier, random.Random(seed * 7919 + 11))
     have_props = os.path.exists(os.path.join(C.COQ, "theories", "Props", "C01.v"))
     proofs_ok, broken = C.proof_obligations(res, PROPS if have_props else [], extra_targets=["theories/Spec/ConcSpec.vo"])
